@@ -160,19 +160,22 @@ def exhaustive(tier):
             nvals = (nent if call in (1, 2, 3, 4) else (1 if shape in ("d", "t", "w") else 0))
             has_ss = call != 5
             k = 1 + nvals + (2 if has_ss else 0)
-            for bits in itertools.product([False, True], repeat=k):
+            # clock times / weekday triggers also at exactly midnight - the value `datetime.time()` and a bare `Monday()` carry
+            midnights = [False, True] if (call in (1, 2, 3, 4) or shape in ("t", "w")) else [False]
+            for bits, midnight in itertools.product(itertools.product([False, True], repeat=k), midnights):
                 for ctor in ([False, True] if call != 5 else [False]):
                     tz = H if bits[0] else None
                     offs = [(2 * H if b else None) for b in bits[1:1 + nvals]]
                     if call == 0:
                         ts = [["c", 10_000_000]]
                     elif call in (1, 2, 3):
-                        ts = [["t", 1 + j, 2, 3, 0, offs[j]] for j in range(nent)]
+                        ts = [(["t", 0, 0, 0, 0, offs[j]] if (midnight and j == 0) else ["t", 1 + j, 2, 3, 0, offs[j]]) for j in range(nent)]
                     elif call == 4:
-                        ts = [["w", j, 1, 2, 3, 0, offs[j]] for j in range(nent)]
+                        ts = [(["w", j, 0, 0, 0, 0, offs[j]] if midnight else ["w", j, 1, 2, 3, 0, offs[j]]) for j in range(nent)]
                     else:
+                        hh = 0 if midnight else 7
                         ts = {"d": [["d", B0 + 5 * H, offs[0] if nvals else None]], "c": [["c", 10_000_000]],
-                              "t": [["t", 7, 0, 0, 0, offs[0] if nvals else None]], "w": [["w", 2, 7, 0, 0, 0, offs[0] if nvals else None]]}[shape]
+                              "t": [["t", hh, 0, 0, 0, offs[0] if nvals else None]], "w": [["w", 2, hh, 0, 0, 0, offs[0] if nvals else None]]}[shape]
                     o = {"op": "sch", "call": call, "timings": ts, "is_list": nent > 1 or ctor, "clock": B0, "payload": 1}
                     if has_ss:
                         sa, so = bits[1 + nvals], bits[2 + nvals]
